@@ -480,13 +480,16 @@ def o_fit(case, T):
     probes = [(x0 + (x1 - x0) * u, y0 + (y1 - y0) * v) for u, v in case["probes"]]
     # tolerance: 1e-6 px plus float rounding at the magnitude of the world coordinates
     tol_px = 1e-6 + 1e-11 * float(np.abs(wld).max()) / s
+    # affine_from_pts solves an un-normalised least squares on [x, y, 1]: its rounding error scales with the condition
+    # number of that raw design matrix (input-only quantity) times the magnitude of the world coordinates
+    tol_aff = tol_px + 32 * 2.3e-16 * float(np.linalg.cond(np.c_[pts, np.ones(n)])) * float(np.abs(wld).max()) / s
     if deg == "affine":
         A2 = M.affine_from_pts([xy_(*p) for p in pts.tolist()], [xy_(*p) for p in wld.tolist()])
         for p in probes:
             g = A2 * p
             w = A * p
             err = math.hypot(g[0] - w[0], g[1] - w[1]) / s
-            require(err < tol_px, "affine_from_pts off by %.3g px at %r (n=%d)", err, p, n)
+            require(err < tol_aff, "affine_from_pts off by %.3g px at %r (n=%d, tolerance %.3g)", err, p, n, tol_aff)
     with np.errstate(all="ignore"):
         P = M.Poly2d.fit(pts.copy(), wld.copy())
     for p in probes:
